@@ -76,13 +76,24 @@ def worker(case):
             top = n.top_instance.reference
             leafdef = next(d for l in n.libraries for d in l.definitions if elab.is_leaf_def(d) and d.ports)
             for d in [top] + [d for l in n.libraries for d in l.definitions if d is not top and not elab.is_leaf_def(d)]:
-                for k in range(3):
+                # (the top cell carries fourteen consecutive taken candidates: a search that gives up after ten
+                # tries ends on a taken one)
+                for k in range(14 if d is top else 3):
                     # (identifiers compare case-insensitively: every other spare is spelled in upper case)
-                    cid = "cable_sdn_flat_%d" % (k if d is top else k + 3)
-                    xid = "instance_sdn_flat_%d" % (k if d is top else k + 3)
+                    cid = "cable_sdn_flat_%d" % (k if d is top else k + 14)
+                    xid = "instance_sdn_flat_%d" % (k if d is top else k + 14)
                     d.create_cable(name="spare_c%d" % k)["EDIF.identifier"] = cid.upper() if k % 2 == 0 else cid
                     d.create_child(name="spare_x%d" % k, reference=leafdef)["EDIF.identifier"] = xid.upper() if k % 2 == 0 else xid
 
+    if variant == "top-name-twice":
+        # a hierarchical cell that is not the top lives in another library under the very name of the top cell
+        top = n.top_instance.reference
+        other = next((d for l in n.libraries for d in l.definitions if d is not top and not elab.is_leaf_def(d)), None)
+        if other is not None:
+            ip = n.create_library(name="ip")
+            other.library.remove_definition(other)
+            ip.add_definition(other)
+            other.name = top.name
     key = _hier.key_of(case, n)
     tag = "%s:%s" % (case[0][0], case[2] if len(case) > 2 else case[0][2])
     res = one_round(n, tag, probs)
@@ -119,6 +130,7 @@ def cases(tier):
             out.append((desc, "desc"))
             out.append((desc, "asc", "edif-identifiers"))
             out.append((desc, "asc", "after-refused-edits"))
+            out.append((desc, "asc", "top-name-twice"))
     for desc in design.family_hier(tier, variants=("plain",)):
         if desc[0] in ("K2-shared", "K8-bus", "K1-chain2"):
             out.append((desc, "asc", "late-ports"))
@@ -130,6 +142,7 @@ def cases(tier):
             out.append((desc, "asc", "flat-block-reused"))
         if desc[0] in ("K1-chain2", "K2-shared", "K8-bus", "K7-shared-both") and (tier == "thorough" or sum(desc[1]) % 5 == 0):
             out.append((desc, "asc", "after-refused-edits"))
+            out.append((desc, "asc", "top-name-twice"))
     return out
 
 
